@@ -155,6 +155,7 @@ type run struct {
 	m        *Model
 	cur      *Conn // connection the oracle is currently judging
 
+	pidSet            bool
 	malformedAccepted string // defect class of the first malformed CONNECT that was accepted
 }
 
@@ -689,6 +690,13 @@ func Run(script interface{}, cfg simrt.Config) *world.Outcome {
 
 func msDur(ms int) time.Duration { return time.Duration(ms) * time.Millisecond }
 
+func bufCfg(sc *Script) int {
+	if sc.Knobs.BufCfg != 0 {
+		return sc.Knobs.BufCfg
+	}
+	return sc.Knobs.BufSize
+}
+
 func (r *run) director() {
 	s := r.s
 	sc := r.sc
@@ -726,7 +734,7 @@ func (r *run) director() {
 		return h
 	}
 	r.srv = &service.Server{
-		BufferSize:       int64(sc.Knobs.BufSize),
+		BufferSize:       int64(bufCfg(sc)),
 		ConnectTimeout:   sc.Knobs.ConnectTimeout,
 		SessionsProvider: r.provName,
 		TopicsProvider:   r.provName,
@@ -803,6 +811,11 @@ func (r *run) director() {
 			continue
 		}
 		if atBarrier > 0 {
+			if sc.Knobs.SvcPIDStart != 0 && !r.pidSet {
+				// bring every connection's own packet-id counter close to the wrap
+				r.pidSet = true
+				r.srv.VerifSetPacketIDCounters(sc.Knobs.SvcPIDStart)
+			}
 			for _, st := range r.cs {
 				if st.st == csBarrier {
 					st.barrier.Signal(s)
